@@ -565,6 +565,14 @@ reprocess:
 			if (location + sizeof (int) > max_len) {
 				return max_len;
 			}
+			if (sformat_precision) {
+				/* "%.*s": the precision of a string */
+				if (arg_int < 0) {
+					sformat_precision = QB_FALSE;
+				} else {
+					sformat_length = arg_int;
+				}
+			}
 			memcpy(&serialize[location], &arg_int, sizeof (int));
 			location += sizeof(int);
 			format++;
@@ -693,11 +701,16 @@ reprocess:
 						   "(null)",
 						   QB_MIN(strlen("(null)") + 1,
 							  max_len - location));
-			} else if (sformat_length) {
-				location += my_strlcpy(&serialize[location],
-						   arg_string,
-						   QB_MIN(sformat_length + 1,
-						   (max_len - location)));
+			} else if (sformat_precision) {
+				/* like printf: at most "precision" bytes of the
+				 * argument are looked at, it need not be
+				 * terminated */
+				size_t n = strnlen(arg_string,
+						   QB_MIN(sformat_length,
+							  max_len - location - 1));
+				memcpy(&serialize[location], arg_string, n);
+				serialize[location + n] = '\0';
+				location += n;
 			} else {
 				location += my_strlcpy(&serialize[location],
 						   arg_string,
